@@ -179,13 +179,11 @@ static void judge_c16r(const glue::Files &files, const std::string &main, Result
     return;
   }
   if (!v.accept && v.reason.rfind("call of", 0) == 0 && v.reason.find("no complete earlier definition") != std::string::npos) {
+    // (rejection is what the property demands; which error type says so is the implementation's choice)
     bool unk = false;
     for (auto &e : cr.errors)
       if (e.t == Theo::CodegenResult::Error::Type::UNKNOWN_PROGRAM_NAME) unk = true;
-    if (!unk) {
-      r.fail("rec:no-unknown-program-error", "rejected, but without an unknown-program error for: " + v.reason);
-      return;
-    }
+    if (unk) r.cls("reported-as-unknown-program");
     r.cls(v.reference_attempt ? "rejected:self/forward/mutual-reference" : "rejected:undefined-name");
     r.nontrivial = v.reference_attempt;
   } else if (v.accept) {
